@@ -1,0 +1,51 @@
+//go:build verif
+// +build verif
+
+package api
+
+import (
+	"sort"
+
+	"github.com/evanw/esbuild/internal/verif"
+)
+
+// This file is only compiled with the "verif" build tag. It is the bridge
+// between the instrumentation hooks in "internal/verif" and a verification
+// harness that lives outside of this module (which cannot import "internal").
+
+func VerifSetSink(fn func(ev string, gid int64, kv []interface{})) { verif.SetSink(fn) }
+func VerifSetGate(fn func(name string, key string) string)          { verif.SetGate(fn) }
+func VerifSetProc(name string, fn func(data interface{}))           { verif.SetProc(name, fn) }
+func VerifGoID() int64                                               { return verif.GoID() }
+func VerifID(ptr interface{}) string                                 { return verif.ID(ptr) }
+
+// VerifContextID returns the identifier that hook events use for a context
+func VerifContextID(c BuildContext) string {
+	if ctx, ok := c.(*internalContext); ok {
+		return verif.ID(ctx)
+	}
+	return ""
+}
+
+// VerifWatchProbe runs one watch-mode build of the context synchronously
+// (without starting the polling goroutine) and returns its result together
+// with a function that evaluates every watch predicate recorded by that build
+// and returns the sorted list of paths that are reported as dirty.
+func VerifWatchProbe(c BuildContext) (BuildResult, func() []string) {
+	ctx := c.(*internalContext)
+	ctx.mutex.Lock()
+	ctx.args.options.WatchMode = true
+	ctx.mutex.Unlock()
+	state := ctx.rebuild()
+	data := state.watchData
+	return state.result, func() []string {
+		var dirty []string
+		for _, fn := range data.Paths {
+			if path := fn(); path != "" {
+				dirty = append(dirty, path)
+			}
+		}
+		sort.Strings(dirty)
+		return dirty
+	}
+}
